@@ -6,6 +6,7 @@ CONSTANTS
   Level = %s
   MaxPieces = %s
   NSc <- FamN
+  MaxK <- FamMaxLen
   ScWire <- FamWire
   ScKind <- FamKind
   ScMsgs <- FamMsgs
